@@ -1,5 +1,25 @@
-/- Shared SCALE development: universe, canonical compact integers, generic structural codec,
-   canonical (Spec) codec and its theorems.  See the sub-modules. -/
+/-
+Shared SCALE development (built for C11 / C12; meant to be reused by C09 / C14 / C33).
+
+  Scale/Basic.lean    `Prim`, `Ty`, `Val`, `wt` (well-typed values), little-endian digit lemmas.
+                      `Ty` is NOT nested: a struct/tuple is a `pair … unit` chain (fields in encoding
+                      order), a varying data type is an `enumCons idx ty rest … enumNil` chain, so
+                      plain `induction t` works.  Sequences/arrays are `Val.list`.
+  Scale/Compact.lean  `compactEnc` / `compactDec`: canonical compact integers (< 2^536) with
+                      `compactDec_enc` (round trip) and `compactDec_sound` (only canonical forms decode).
+  Scale/Codec.lean    `Codec` (primitive layer), `encode C` / `decode C` (structural layer, generic),
+                      `Codec.RT` / `Codec.Snd` laws, theorems `roundtrip`, `roundtripOn` (relative to
+                      a leaf predicate), `sound` (needs `Ty.wf`), `truncated`, `encode_inj`, `encode_congr`.
+  Scale/Spec.lean     `Spec.codec`: the canonical SCALE codec (this is the independent reference
+                      encoder/decoder), `Spec.rt`, `Spec.snd`, `Spec.roundtrip/sound/truncated`.
+
+The Go implementation (pkg/scale) is modelled in `Gossamer/Model/C11.lean` (`C11.codec`,
+`C11.marshal`, `C11.unmarshal`, `C11.marshalGo`, `C11.fieldOrder`) and `Gossamer/Model/C12.lean`
+(`C12.decodeA`: result + largest read buffer + zero-fill flag).  `Gossamer/Props/C11.lean` relates every
+Go primitive to the canonical one (`encP_canonical`, `decPA_spec`); `Gossamer/Props/C12.lean` proves
+`C12_refines` (Go decoder vs canonical decoder).  `Gossamer/Lib/ScaleText.lean` parses the harness's
+type/value syntax (drivers only); `Gossamer/Lib/ScaleMap.lean` models Go maps (drivers only).
+-/
 import Gossamer.Lib.Scale.Basic
 import Gossamer.Lib.Scale.Compact
 import Gossamer.Lib.Scale.Codec
